@@ -117,6 +117,8 @@ def monitorRc (c : RcCase) (obs : String) : String :=
     -- "built from" the revision: the created pod's template is the one its revision label names (observed by the harness)
     ("C07.template", fieldD obs "tplbad" == "0" || fieldD obs "tplbad" == ""),
     ("C06.template", fieldD obs "tplbad" == "0" || fieldD obs "tplbad" == ""),
+    -- every pod handed to the pod control for creation carries the identity and the claim volumes of its own ordinal
+    ("C06.created", fieldD obs "idbad" == "0" || fieldD obs "idbad" == ""),
     ("C02.template", fieldD obs "tplbad" == "0" || fieldD obs "tplbad" == ""),
     ("C12.bounds", !created || (match written with | some st => C12bounds st | none => true)),
     ("C12.generation", match written with | some st => C12gen v c.stored st | none => true),
@@ -130,7 +132,7 @@ def stepReconcile (cas obs : String) : String :=
     let (acts, st, written, out) := runRc c
     let stS := match st with | some s => showStatus s | none => "-"
     let wS := match written with | some s => showStatus s | none => "-"
-    let model := s!"acts={",".intercalate (acts.map showOAct)} status={stS} written={wS} out={showOut out} tplbad=0"
+    let model := s!"acts={",".intercalate (acts.map showOAct)} status={stS} written={wS} out={showOut out} tplbad=0 idbad=0"
     -- the implementation's panic message is carried in a trailing `site=` field that is not part of the comparison
     let obs' := match obs.splitOn " site=" with | o :: _ => o | [] => obs
     s!"{model}\t{monitorRc c obs'}\t{rcTag c acts out}"
